@@ -89,6 +89,11 @@ bool vf_v3_mod_scalar(U x0, U x1, U x2, U d, U *o){ auto const r = m::vector::mo
 void vf_v3_to_signed_unsigned(U x0, U x1, U x2, int y0, int y1, int y2, int *os, U *ou){ auto const s = m::vector::to_signed(uv3{x0, x1, x2}); auto const u = m::vector::to_unsigned(iv3{y0, y1, y2}); os[0] = s.x(); os[1] = s.y(); os[2] = s.z(); ou[0] = u.x(); ou[1] = u.y(); ou[2] = u.z(); }
 void vf_v3_bit_strings(int *o){ auto const r = m::vector::bit_strings<int, 3>(); unsigned k = 0; for (auto const &v : r) { o[k++] = v.x(); o[k++] = v.y(); o[k++] = v.z(); } }
 void vf_v2_bit_strings(int *o){ auto const r = m::vector::bit_strings<int, 2>(); unsigned k = 0; for (auto const &v : r) { o[k++] = v.x(); o[k++] = v.y(); } }
+// non-square: (2x3) * (3x2) -> 2x2, transpose of 2x3, (2x3) * vector3 -> vector2
+void vf_m23_m32_mul(U a0, U a1, U a2, U a3, U a4, U a5, U b0, U b1, U b2, U b3, U b4, U b5, U *o){ um23 const a{m::matrix::row(a0, a1, a2), m::matrix::row(a3, a4, a5)}; m::matrix::static_<U, 3, 2> const b{m::matrix::row(b0, b1), m::matrix::row(b2, b3), m::matrix::row(b4, b5)};
+  auto const r = a * b; o[0] = m::matrix::at_r_c<0, 0>(r); o[1] = m::matrix::at_r_c<0, 1>(r); o[2] = m::matrix::at_r_c<1, 0>(r); o[3] = m::matrix::at_r_c<1, 1>(r);
+  auto const t = m::matrix::transpose(a); o[4] = m::matrix::at_r_c<0, 0>(t); o[5] = m::matrix::at_r_c<0, 1>(t); o[6] = m::matrix::at_r_c<1, 0>(t); o[7] = m::matrix::at_r_c<1, 1>(t); o[8] = m::matrix::at_r_c<2, 0>(t); o[9] = m::matrix::at_r_c<2, 1>(t);
+  auto const v = a * uv3{b0, b2, b4}; o[10] = v.x(); o[11] = v.y(); }
 // 4x4
 void vf_m4_mul(A4, B4, U *o){ LA4; LB4; put4(mk4(a) * mk4(b), o); }
 void vf_m4_transpose(A4, U *o){ LA4; put4(m::matrix::transpose(mk4(a)), o); }
